@@ -197,6 +197,55 @@ def judge_item(ctx, spec, r, crash):
                       f"something else ('{field}' differs) instead of being rejected", wit)
 
 
+def zlib_ladder(ctx):
+    """zlib_compress / zlib_uncompress round trip at the chunk boundaries of the container (and one payload per
+    kind padded to each boundary through the codecs that carry free-length data)."""
+    # no codec hands the container an empty payload (each has a fixed header), so the ladder starts at one byte
+    sizes = [1, 2, 16383, 16384, 16385, 32767, 32768, 32769, 49152, 65535, 65536, 65537, 100000, 16384 * 8]
+    specs = []
+    for n in sizes:
+        for fill in ("zero", "ramp", "random"):
+            if fill == "zero":
+                b = bytes(n)
+            elif fill == "ramp":
+                b = bytes((i * 7) & 255 for i in range(n))
+            else:
+                b = bytes(ctx.rng.randrange(256) for _ in range(n))
+            specs.append(("zlib", "roundtrip", b.hex(), ("zlib", "size=%d" % n)))
+
+    def on_item(sp, r, crash):
+        ctx.count()
+        ctx.bump_in("zlib_container_sizes", sp[3][1])
+        wit = {"kind": "zlib", "size": len(sp[2]) // 2, "tag": sp[3][1]}
+        if crash:
+            ctx.violation(f"crash zlib {crash['kind']} at={crash['site']}", f"zlib container round trip died: {crash['kind']}", wit)
+        elif "exc" in r:
+            ctx.violation(f"zlib-container-roundtrip-rejected {sp[3][1]}", f"compress/uncompress of {len(sp[2]) // 2} bytes threw {r['exc']}", wit)
+        elif r["value"] != sp[2]:
+            ctx.violation(f"zlib-container-roundtrip-mismatch {sp[3][1]}", f"uncompress(compress(x)) != x for {len(sp[2]) // 2} bytes", wit)
+
+    codec_run.run_items("san", specs, on_item, batch=10)
+    # codecs with free-length content, sized so that the payload hits each boundary
+    more = []
+    for n in (16384, 32768, 65536):
+        # v1 high-res: 30 + 6k bytes; v2 overview: 27 + 3k + extra; v2 track data: 44 + extra
+        more.append(("v2_track_data", "roundtrip", dict(G.v2_track_data(ctx.rng), extra=(b"e" * (n - 44)).hex()), ("roundtrip", "payload=%d" % n)))
+        k = (n - 27) // 3
+        v = G.v2_overview(ctx.rng)
+        v["points"] = bytes((i * 3) & 255 for i in range(3 * k)).hex()
+        v["extra"] = (b"x" * (n - 27 - 3 * k)).hex()
+        more.append(("v2_overview", "roundtrip", v, ("roundtrip", "payload=%d" % n)))
+        if (n - 30) % 6 == 0 or True:
+            k = (n - 30) // 6
+            if 30 + 6 * k == n:
+                more.append(("v1_high_res", "roundtrip", {"spe": "4024000000000000", "waveform": bytes((i * 5) & 255 for i in range(6 * k)).hex()},
+                             ("roundtrip", "payload=%d" % n)))
+    for k in (8187, 16379):   # 30 + 6k is a multiple of 16384
+        more.append(("v1_high_res", "roundtrip", {"spe": "4024000000000000", "waveform": bytes((i * 5) & 255 for i in range(6 * k)).hex()},
+                     ("roundtrip", "payload=%d" % (30 + 6 * k))))
+    codec_run.run_items("san", more, lambda sp, r, c: judge_item(ctx, sp, r, c), batch=4)
+
+
 def run(ctx):
     n = 400 if ctx.tier == "quick" else 12000
     specs = []
@@ -216,6 +265,7 @@ def run(ctx):
                         "std::bad_alloc for a single allocation above 128 MiB is a legal rejection",
                         "ASan+UBSan+_GLIBCXX_ASSERTIONS build; a sanitizer report during encode/decode is a violation"]
     codec_run.run_items("san", specs, lambda sp, r, c: judge_item(ctx, sp, r, c), batch=60)
+    zlib_ladder(ctx)
     if len(ctx.extra.get("by_kind", {})) != 11:
         ctx.fail_harness("not all 11 codecs were exercised")
 
